@@ -642,6 +642,38 @@ theorem addnoc_refused_while_deferred (cfg : Cfg) (n : Node) (sid s ca fid node 
     · simp [hfab] at h
     · rw [hdef] at h; cases h
 
+/-- (fixed finding `C08-vvs-flushes-deferred`) SetVIDVerificationStatement over a session of the fabric
+the fail-safe is armed for, while that fabric's record carries staged changes (a deferred fabric-scoped
+write, or a NOC command): the command is acknowledged, and neither the store nor the fail-safe context
+is touched - what was staged is still rolled back by the expiry or committed by CommissioningComplete.
+(The unrepaired code stored the whole record - deferred ACL / group / label changes included - and the
+expiry then "restored" them from the store.) -/
+theorem vvs_rides_along_with_staged (cfg : Cfg) (n : Node) (sid s : Nat) (mode : Mode) (hfab : mode.fab ≠ 0)
+    (hpend : pendingFor n mode.fab = true) (hf : (getFabric n mode.fab).isSome = true) :
+    sessOp cfg n sid mode (.vvs s) = (n, .ok) := by
+  simp only [sessOp, hfab, if_false]
+  cases hg : getFabric n mode.fab with
+  | none => rw [hg] at hf; cases hf
+  | some f =>
+    have hidx := getFabric_idx hg
+    simp only [hidx, hpend, if_true, ok]
+
+/-- a deferred write makes the fabric's record "staged": from then on (same context)
+SetVIDVerificationStatement does not store -/
+theorem deferred_is_pending (n : Node) (a : Armed) (hfs : n.fs = some a) (hd : a.deferred = true) :
+    pendingFor n a.fab = true := by
+  simp [pendingFor, hfs, hd]
+
+/-- non-vacuity + the history of the finding on the model (as repaired): commissioned fabric 1, fail-safe
+armed over its CASE session, deferred ACL write, SetVIDVerificationStatement, forced expiry: the store
+was not written between the arming and the expiry, and the ACL is the one from before the arming -/
+example :
+    let ops : List Op := [.boot, .pase, .arm 0 60, .csr 0 false, .root 0 1, .addnoc 0 1 5 10 100 1,
+      .caseEst 1 100 1, .complete 1, .arm 1 60, .acl 1 201, .vvs 1]
+    let n := run {} {} ops
+    pendingFor n 1 = true ∧ (n.kv.fabs.map (·.acl)) = [[100]] ∧ (n.fabrics.map (·.acl)) = [[100, 201]] ∧
+    ((run {} {} (ops ++ [.arm 1 0])).fabrics.map (·.acl)) = [[100]] := by decide
+
 /-- no operation of the list writes a fabric key or the networks key -/
 def StoreQuiet (cfg : Cfg) : Node → List Op → Prop
   | _, [] => True
@@ -913,6 +945,20 @@ theorem sessOp_keeps_noc_mark (cfg : Cfg) (n : Node) (sid : Nat) (mode : Mode) (
     · cases hg : getFabric n mode.fab with
       | none => exact hm
       | some f => exact writeResult_fs n f f hm
+  | vvs s =>
+    simp only [sessOp]
+    split
+    · exact hm
+    · cases hg : getFabric n mode.fab with
+      | none => exact hm
+      | some f =>
+        simp only []
+        split
+        · exact hm
+        · have hfr := (storeFabric_spec n f).1
+          rcases hr : storeFabric n f with ⟨n2, b⟩
+          rw [hr] at hfr
+          cases b <;> exact nocMark_of_fs hfr.fs hm
   | net s v =>
     simp only [sessOp]
     repeat' split
